@@ -18,7 +18,8 @@ shape turns up):
   ADDITEMS including the C implementation's quirks (a one-element exact list or dict uses
   APPEND / SETITEM; an exact dict or set whose size is a positive multiple of 1000 gets a
   trailing empty batch; the iterator form used for `dictitems` writes a trailing single item with
-  SETITEM).
+  SETITEM).  Cells that stand for no Python object (`cellOK`: a class whose module / qualified name is not a
+  string, an instance whose class is not a class) are refused like dangling references.
 * `load ops`: the unpickler's virtual machine (stack, mark stack, memo).  An object created by
   NEWOBJ / REDUCE has **no state** (`state = none`) until its BUILD — and BUILD comes after the
   state's children were unpickled, so inside a cycle a dict can receive a key whose `__dict__` is
